@@ -50,6 +50,20 @@ fn params_for(method: &str, uri: &str) -> Value {
 
 pub fn gen_script(t: &mut Tape, gates: &Gates, max_len: usize) -> Script {
     let mut s = Script { messages: vec![lsp_initialize(0), lsp_initialized()], requests: vec![(json!(0), "initialize".into())], doc_notifications: vec![], kinds: vec![] };
+    // documents: the fixed small ones, a few shapes that have tripped servers (a statement keyword
+    // without its ';', non-ASCII text, CRLF, a comment at the very end, an OSCAT header), and two
+    // documents of the program generator in wild spelling
+    let mut pool: Vec<String> = DOCS.iter().map(|d| d.to_string()).collect();
+    pool.push("PROGRAM p\nVAR\nx : INT;\nEND_VAR\nIF x = 1 THEN\nx := 2;\nEND_IF\nx := 3;\nEND_PROGRAM\n".into());
+    pool.push("PROGRAM p\r\nVAR\r\nx : INT; (* caf\u{e9} \u{20ac} \u{1f600} *) y : INT;\r\nEND_VAR\r\nEND_PROGRAM\r\n(* end *)".into());
+    pool.push("(*@KEY@:DESCRIPTION*)\nversion 1\n(*@KEY@:END_DESCRIPTION*)\nPROGRAM p\nVAR\ns : STRING := 'a$'b';\nEND_VAR\nEND_PROGRAM\n".into());
+    for _ in 0..2 {
+        // derived, so that the script itself keeps the tape
+        let sub: Vec<u8> = crate::tape::derived(&[t.byte(), t.byte()], 160);
+        let d = crate::props::c15::gen_doc(&mut Tape::new(&sub), gates);
+        pool.push(d.text);
+    }
+    let pool: Vec<&str> = pool.iter().map(|x| x.as_str()).collect();
     let n = t.count(1, max_len);
     let mut next_id: i64 = 1;
     let mut version: HashMap<String, i64> = HashMap::new();
@@ -60,7 +74,7 @@ pub fn gen_script(t: &mut Tape, gates: &Gates, max_len: usize) -> Script {
             0 | 1 => {
                 let v = version.entry(uri.to_string()).or_insert(0);
                 *v += 1;
-                s.messages.push(lsp_did_open(uri, *v, *t.pick(DOCS)));
+                s.messages.push(lsp_did_open(uri, *v, *t.pick(&pool)));
                 s.doc_notifications.push((uri.to_string(), *v));
                 s.kinds.push("didOpen");
             }
@@ -78,7 +92,7 @@ pub fn gen_script(t: &mut Tape, gates: &Gates, max_len: usize) -> Script {
                     1 => 2,
                     _ => 1,
                 };
-                let texts: Vec<&str> = (0..nchanges).map(|_| *t.pick(DOCS)).collect();
+                let texts: Vec<&str> = (0..nchanges).map(|_| *t.pick(&pool)).collect();
                 s.messages.push(lsp_did_change(uri, *v, &texts));
                 s.doc_notifications.push((uri.to_string(), *v));
                 s.kinds.push(match nchanges {
